@@ -382,7 +382,44 @@ def t13_avar(run, fx):
         run.anchor_missing(rule, "comparisons in SegmentMap::normalize")
 
 
+def t13_wide(run, fx):
+    rule = "T13-WIDE"
+    run.rule(rule, "16.16 products and quotients are formed in 64 bits: in <Fixed as Mul>::mul and <Fixed as Div>::div every multiplication, division "
+                   "and shift works on i64 operands and the result is narrowed once at the end (the product of two 16.16 values needs 48 bits; a "
+                   "32-bit multiply or pre-shift drops the bits that carry products of 0.5 and more)")
+    for path in ("<tables::Fixed as std::ops::Mul>::mul", "<tables::Fixed as std::ops::Div>::div"):
+        b = fx.body(path)
+        if b is None:
+            run.anchor_missing(rule, path)
+            continue
+        bad, n = [], 0
+        for bi in range(len(b.blocks)):
+            if not b.reachable(bi):
+                continue
+            for st in b.stmts(bi):
+                rv = st.get("rv") or {}
+                if st.get("k") == "assign" and rv.get("k") == "bin" and rv.get("bop", "").replace("WithOverflow", "").replace("Unchecked", "") in ("Mul", "Div", "Shl", "Shr", "Rem"):
+                    n += 1
+                    if rv.get("aty") != "i64":
+                        bad.append("%s on %s at %s" % (rv["bop"], rv.get("aty"), b.loc(st)))
+            t = b.term(bi)
+            if t["k"] == "call":
+                m = re.search(r"core::num::<impl (\w+)>::(wrapping|checked|overflowing|saturating|unchecked)_(mul|div|shl|shr)", t["callee"].get("path") or "")
+                if m:
+                    n += 1
+                    if m.group(1) != "i64":
+                        bad.append("%s_%s on %s at %s" % (m.group(2), m.group(3), m.group(1), b.loc(t)))
+        if bad:
+            run.fail(rule, "wide:%s" % path.split("::")[-1], "%s computes in fewer than 64 bits: %s" % (path, "; ".join(bad)), "%s:%s" % (b.file, b.line))
+        elif n == 0:
+            run.anchor_missing(rule, "arithmetic in %s" % path)
+        else:
+            run.ok(rule, "%s: %d operation(s), all on i64" % (path, n))
+
+
 def check(run, fx, tier, floors=True):
+    if floors or fx.body("<tables::Fixed as std::ops::Mul>::mul") is not None:
+        t13_wide(run, fx)
     if floors or fx.body("tables::variable_fonts::avar::SegmentMap::<'_>::normalize") is not None:
         t13_dom(run, fx)
         t13_avar(run, fx)
